@@ -146,6 +146,10 @@ def run(F, chk):
     check_chain_eof(F, X3)
     X4 = chk.rule('X4', 'volume readers are positioned with absolute seeks; a relative seek needs a dominating rel_pos != 0 guard (lazy reset invariant)')
     check_chain_relative_seek(F, X4)
+    X5 = chk.rule('X5', 'the loops of extract_to_dir over archive members are left only when exhausted, on an error, or on cancellation')
+    check_member_loops(F, X5)
+    X6 = chk.rule('X6', 'names reported as extracted are confined: from enclosed_name()/sanitize_destination_path(), or requested names behind a Path::components confinement predicate')
+    check_reported_names(F, X6)
 
 
 # ---------------------------------------------------------------------------------------------
@@ -261,3 +265,99 @@ def check_chain_relative_seek(F, X4):
     X4.floor('absolute seeks (SeekFrom::Start) on volume readers', n_abs, 2)
     if X4.obligations == X4.discharged and not any(v for v in X4.violations):
         X4.ok(sample={'relative_seeks_on_volume_readers': X4.sites, 'absolute_seeks': n_abs})
+
+
+# ---------------------------------------------------------------------------------------------
+# X5: the member loops visit every member
+
+def check_member_loops(F, X5):
+    """"exactly the matching members are extracted and reported": the loops of extract_to_dir that walk the archive members
+    (and the list of requested names) may only be left when their iterator is exhausted, through an error (`?`), or
+    through the cancellation flag.  Any other exit stops looking at the remaining members."""
+    n = 0
+    for b in F.order:
+        if b.crate != 'lib' or b.kind == 'closure' or not b.path.startswith('adlt::utils::unzip::extract_to_dir'):
+            continue
+        cfg = CFG(b)
+        E = ExprBuilder(cfg, fold_named=True)
+        X5.fn(b.path)
+        for hd, lb in cfg.loops().items():
+            nxt = [x for x in lb if b.blocks[x].term.k == 'call' and b.blocks[x].term.callee.path.endswith('Iterator::next')]
+            if not nxt:
+                continue
+            n += 1
+            for x in sorted(lb):
+                for y in cfg.succ[x]:
+                    if y in lb or b.blocks[y].term.k == 'unreachable':
+                        continue
+                    X5.sites += 1
+                    kind = None
+                    for (c, truth, D) in guards.known(cfg, E, y):
+                        if D != x:
+                            continue
+                        sc = show(c)
+                        if sc.startswith('discr(Iterator::next(') and truth in (False, ('eq', 0)):
+                            kind = 'iterator exhausted'
+                        elif ('Atomic::load(' in sc or 'AtomicBool::load(' in sc) and truth is True:
+                            kind = 'cancelled'
+                        elif sc.startswith('discr(Try::branch(') and truth in (True, ('eq', 1)):
+                            kind = 'error propagated'
+                    if kind is None and b.blocks[x].term.k == 'call' and 'from_residual' in b.blocks[x].term.callee.path:
+                        kind = 'error propagated'
+                    if kind:
+                        X5.ok(sample={'loop_head': hd, 'exit_at': b.loc(b.blocks[x].term.sp), 'reason': kind})
+                    else:
+                        X5.violation(('member-loop-left-early', b.path), 'the member loop of %s can be left at %s for a reason other than {all members visited, error, cancelled}: members behind that point are neither extracted nor reported' %
+                                     (b.path, b.loc(b.blocks[x].term.sp)), where=b.loc(b.blocks[x].term.sp))
+    X5.floor('member / request loops in extract_to_dir', n, 2)
+
+
+# ---------------------------------------------------------------------------------------------
+# X6: only confined names are reported as extracted
+
+def check_reported_names(F, X6):
+    """extract_to_dir returns the names it "extracted"; the caller joins them onto the temp dir and opens them.  A name
+    pushed into that result must therefore be as confined as a name that is written: it derives from
+    enclosed_name()/sanitize_destination_path(), or - when it comes from the caller's list of requested (raw member)
+    names - the push is dominated by the true edge of a confinement predicate on that name (a function of the archive
+    module that inspects `Path::components`).  Otherwise a member called `../x` is reported as extracted as soon as a
+    file `<tempdir>/../x` happens to exist, and adlt opens that host file."""
+    ex = F.get('adlt::utils::unzip::extract_to_dir')
+    if ex is None:
+        X6.violation(('anchor-lost', 'extract_to_dir'), 'extract_to_dir not found')
+        return
+    cfg = CFG(ex)
+    pr = Prov(cfg)
+    E = ExprBuilder(cfg, fold_named=True)
+    X6.fn(ex.path)
+    preds = set()
+    for b in F.order:
+        if b.crate == 'lib' and b.path.startswith(UNZIP) and b.kind != 'closure' and b.ret_type() == 'bool':
+            bodies = [b] + list(F.closures_of(b.path))
+            if any(x.term.callee.path.endswith('Path::components') for y in bodies for x in y.calls()):
+                preds.add(b.path)
+    n = 0
+    for blk in ex.calls():
+        t = blk.term
+        if not (re.search(r'Vec::<T, A>::push$', t.callee.path) and 'PathBuf' in (t.args[0].ty or '')):
+            continue
+        n += 1
+        X6.sites += 1
+        toks = expand_closures(F, pr.operand(t.args[1], at=blk.i))
+        calls = calls_in(toks)
+        params = params_in(toks)
+        safe = any(c.endswith('::enclosed_name') or c.endswith('sanitize_destination_path') for c in calls)
+        raw = [x for x in params if x not in ('target_dir', 'source', 'shall_cancel')]
+        guarded = None
+        for (c, truth, D) in guards.known(cfg, E, blk.i):
+            if truth is True and isinstance(c, tuple) and c[0] == 'call' and c[1] in preds:
+                guarded = c[1]
+        if safe and not any(FORBIDDEN.search(c) for c in calls):
+            X6.ok(sample={'reported_at': ex.loc(t.sp), 'name_from': 'enclosed_name()/sanitize_destination_path()'})
+        elif guarded:
+            X6.ok(sample={'reported_at': ex.loc(t.sp), 'name_from': 'requested names (%s)' % ', '.join(raw), 'behind': guarded})
+        else:
+            X6.violation(('unconfined-name-reported', ex.path, '_'.join(sorted(raw)) or 'x'),
+                         'extract_to_dir reports a name as extracted at %s that comes from %s without passing enclosed_name()/a confinement predicate: a member name such as `../x` is reported (and then opened by the caller) '
+                         'when that path exists outside the temporary directory' % (ex.loc(t.sp), ', '.join(raw) or 'an unconfined source'), where=ex.loc(t.sp))
+    X6.floor('pushes into the result of extract_to_dir', n, 2)
